@@ -76,7 +76,8 @@ PROPS['C03'] = dict(
                 'give the language statement). union, concatenate, kleene_star go through to_regex/Regex text and are only bounded-checked against reference constructions with an exact '
                 'equivalence oracle. Mixed, hence level other.'),
     level_note='Trusted: VC generator, z3, Lean+Mathlib, by-inspection match of postconditions and Lean structures, premises #pair_injective and trash-state freshness (see known findings), value/ownership assumptions; bounded part: reference semantics.',
-    pyvc=fa('ENFA.get_intersection', 'ENFA.get_complement', 'ENFA.get_difference', 'ENFA.reverse', 'ENFA.copy', 'DFA.copy', 'ENFA.to_deterministic', 'ENFA._to_deterministic_internal', 'ENFA.eclose_iterable', 'ENFA.eclose') + [('contracts.fa_namer', 'NamerC._get')],
+    pyvc=fa('ENFA.get_intersection', 'ENFA.get_complement', 'ENFA.get_difference', 'ENFA.reverse', 'ENFA.copy', 'DFA.copy', 'ENFA.to_deterministic', 'ENFA._to_deterministic_internal', 'ENFA.eclose_iterable', 'ENFA.eclose',
+            'ENFA.__neg__', 'ENFA.__and__', 'ENFA.__sub__', 'ENFA.__invert__', 'ENFA.__copy__') + [('contracts.fa_namer', 'NamerC._get')],
     lean=['bridge/prod.lean', 'bridge/compl.lean', 'bridge/rev.lean', 'bridge/Link.lean'],
     bounded='bounded.c03', replayer='bounded.replay_fa',
     bounded_only=['Regexable.union', 'Regexable.concatenate', 'Regexable.kleene_star', 'EpsilonNFA.to_regex and helpers'],
@@ -92,7 +93,7 @@ PROPS['C04'] = dict(
     level_text=('Deductive for EpsilonNFA.is_empty (worklist reachability, all automata, all orders; Lean lemma empty gives "no word accepted") and EpsilonNFA.is_deterministic '
                 '(postcondition is the property wording). is_acyclic and get_accepted_words (order-dependent pruning, generator, termination) are bounded only. Mixed => other.'),
     level_note='Trusted: VC generator, z3, Lean+Mathlib, closure-induction schema instances, value assumptions; termination of get_accepted_words on finite languages is only observed on the bounded scope with a step budget.',
-    pyvc=fa('ENFA.is_empty', 'ENFA.is_deterministic', 'NFA.is_deterministic', 'DFA.is_deterministic', 'ENFA.eclose', 'ENFA._get_next_states_from', 'ENFA._get_reachable_states', 'ENFA._get_states_leading_to_final') + [('contracts.fa_concrete', 'NTF.is_deterministic')],
+    pyvc=fa('ENFA.is_empty', 'ENFA.__bool__', 'ENFA.is_deterministic', 'NFA.is_deterministic', 'DFA.is_deterministic', 'ENFA.eclose', 'ENFA._get_next_states_from', 'ENFA._get_reachable_states', 'ENFA._get_states_leading_to_final') + [('contracts.fa_concrete', 'NTF.is_deterministic')],
     lean=['bridge/empty.lean', 'bridge/Link.lean'],
     bounded='bounded.c04', replayer='bounded.replay_fa',
     bounded_only=['FiniteAutomaton.is_acyclic', 'FiniteAutomaton.get_accepted_words', '_get_states_leading_to_final', 'NFA.is_deterministic', 'DFA.is_deterministic'],
@@ -235,8 +236,8 @@ CFG_TRUST = ['CFG._productions is taken to be a set (what every constructor call
              'lemma InBody(Rev s) = InBody s (bridge/cfgrev.lean) and closure-induction schema instances for CReach / UReach',
              'language preservation of the clean-up steps from their proved structure: textbook theorems (Hopcroft-Motwani-Ullman 7.2, 7.7, 7.13), assumed, backed by the bounded language comparison']
 mixed2('C09', [(CFGM, k) for k in ('CFG.get_reachable_symbols', 'CFG.get_unit_pairs', 'CFG.eliminate_unit_productions', 'CFG.remove_useless_symbols', 'fn.get_productions_d')]
-       + [('contracts.cfg_eps', 'CFG.remove_epsilon'), ('contracts.cfg_eps', 'fn.remove_nullable_production'), ('contracts.cfg_eps_sub', 'fn.remove_nullable_production_sub'), ('contracts.cfg_eps_ne', 'fn.remove_nullable_production_sub#no-epsilon'), ('contracts.cfg_cnf', 'CFG._get_productions_with_only_single_terminals')], [],
-      'Deductive for the first step of to_normal_form, _get_productions_with_only_single_terminals: exactly the one-symbol productions unchanged, the others with every terminal replaced by its own fresh variable (injective, not a variable of the grammar whatever names it uses), and one production variable -> terminal per terminal that was replaced. Deductive for remove_epsilon: the result has exactly the productions head -> b\' where b\' is a non-empty body obtained from a body of the grammar by deleting some occurrences of nullable symbols (relation Sub, proved for the recursive helper remove_nullable_production_sub in two halves and for remove_nullable_production), for the least set of nullable symbols (proved in contracts/cfg_gen.py); no epsilon production, same start symbol. Deductive for get_reachable_symbols (= closure of "occurs in a body of"), get_unit_pairs (= unit-derivability from every variable), eliminate_unit_productions (exactly the non-unit bodies of every unit-reachable variable, and no unit production in the result), remove_useless_symbols (modular: given the assumed contract of get_generating_symbols the result keeps exactly the productions over generating symbols whose head is reachable, and only generating and reachable symbols) and the helper get_productions_d.',
+       + [('contracts.cfg_eps', 'CFG.remove_epsilon'), ('contracts.cfg_eps', 'fn.remove_nullable_production'), ('contracts.cfg_eps_sub', 'fn.remove_nullable_production_sub'), ('contracts.cfg_eps_ne', 'fn.remove_nullable_production_sub#no-epsilon'), ('contracts.cfg_cnf', 'CFG._get_productions_with_only_single_terminals'), ('contracts.cfg_cnf', 'CFG.is_normal_form'), ('contracts.cfg_cnf', 'Prod.is_normal_form'), ('contracts.cfg_cnf', 'CFG._get_next_free_variable'), ('contracts.cfg_cnf', 'CFG._decompose_productions')], [],
+      'Deductive, shape only, for the binarisation step _decompose_productions (with _get_next_free_variable: the variable it returns is not a variable of the grammar): every production of the result is an input production with at most two symbols or has exactly two variables as its body, and the short input productions are kept - that the chains of new variables spell the original bodies (suffix sharing) is only covered by the bounded stand-in. Deductive for is_normal_form (grammar and production): True exactly when every production is A -> B C with two variables or A -> a with one terminal. Deductive for the first step of to_normal_form, _get_productions_with_only_single_terminals: exactly the one-symbol productions unchanged, the others with every terminal replaced by its own fresh variable (injective, not a variable of the grammar whatever names it uses), and one production variable -> terminal per terminal that was replaced. Deductive for remove_epsilon: the result has exactly the productions head -> b\' where b\' is a non-empty body obtained from a body of the grammar by deleting some occurrences of nullable symbols (relation Sub, proved for the recursive helper remove_nullable_production_sub in two halves and for remove_nullable_production), for the least set of nullable symbols (proved in contracts/cfg_gen.py); no epsilon production, same start symbol. Deductive for get_reachable_symbols (= closure of "occurs in a body of"), get_unit_pairs (= unit-derivability from every variable), eliminate_unit_productions (exactly the non-unit bodies of every unit-reachable variable, and no unit production in the result), remove_useless_symbols (modular: through the contract of get_generating_symbols - proved in contracts/cfg_gen.py - the result keeps exactly the productions over generating symbols whose head is reachable, and only generating and reachable symbols) and the helper get_productions_d.',
       'contract-based deductive verification (pyvc + z3) of the structural CFG clean-up functions; bounded run-time contract checking for nullable/generating counters, epsilon removal, terminal lifting, binarisation and for the language statements', CFG_TRUST + ['get_generating_symbols is proved in contracts/cfg_gen.py (worklist with counters, against the least-set spec GNS); the table builder CFG._set_impacts_and_remaining_lists is proved there too (one counter cell per non-empty production initialised with the body length, one _impacts entry per body position; ghost fields pr / cell relate cells and productions), and the worklist is proved to give every counter back; assumed: the List.countP / List.count / List.take facts proved in bridge/count.lean (NP, Occ, OccPre), the induction principle of the least set (one instance), Python lists of ints viewed as (length, array) with non-negative indices only, and that a freshly constructed grammar has its memo fields and tables set to None (the representation invariant then holds for every object reachable through the proved functions)'])
 mixed2('C10', [('contracts.cfg', 'CFG.reverse'), ('contracts.cfg', 'CFG.__invert__')] + [('contracts.cfg_subst', k) for k in ('CFG.substitute', 'CFG.union', 'CFG.concatenate', 'CFG.get_closure', 'CFG.get_positive_closure', 'CFG.__or__', 'CFG.__add__')], ['bridge/cfgrev.lean'],
       'Deductive for CFG.reverse: the result has exactly the productions with reversed bodies, same symbols and start symbol (all grammars); Mathlib ContextFreeGrammar.language_reverse gives the mirror language. '
@@ -295,6 +296,12 @@ mixed2('C08', [('contracts.cfg_gen', k) for k in ('CFGGen.generate_epsilon', 'CF
        ['the CYK table (cyk_table.py) and to_normal_form, on which contains(w) for non-empty w rests, are not under contract',
         'that "start symbol in the least nullable set" is "the start symbol derives the empty word" is the textbook characterisation (Hopcroft-Motwani-Ullman 7.1.3), assumed',
         'counting facts (bridge/count.lean), induction principle of the least set (one instance), Python lists of ints viewed as (length, array); the start symbol is not a cfg.Epsilon object'])
+
+mixed2('C05', [('contracts.regex_ops', 'RegexTree.' + k) for k in ('union', 'concatenate', 'kleene_star', '__or__', '__add__')], [],
+       'Deductive for the combinators only: union / | returns a new expression whose tree is Union[self, other], concatenate / + returns Concatenation[self, other], kleene_star returns KleeneStar[self], for all operands (also one object twice), operands unchanged.',
+       'contract-based deductive verification (pyvc + z3) of the three combinators and their operator forms (tree view); bounded run-time contract checking (independent parser and matcher) for the text syntax, acceptance, Thompson construction, to_cfg and str round trip',
+       ['the denotation of expression trees (union, concatenation, star of languages) is the definition of the semantics; that accepts / to_epsilon_nfa / to_cfg implement it is only covered by the bounded stand-in',
+        'everything about reading text (tokenisation, precedence, escapes, MisformedRegexError) is bounded only: the string passes are outside the engine'])
 
 mixed2('C16', [('contracts.fst', k) for k in ('FST.add_transition', 'FST.add_start_state', 'FST.add_final_state', 'Renaming.add_state', 'Renaming.get_name', 'Renaming.add_states',
                                              'FST._add_transitions_to', 'FST._add_start_states_to', 'FST._add_final_states_to', 'FST._add_extremity_states_to', 'FST._copy_into',
